@@ -23,7 +23,7 @@ fi
 git apply $CTX "$PATCH"
 trap 'cd /repo && git checkout -q -- . ' EXIT INT TERM
 for ID in "$@"; do
-    OUT="$(cd /verif && ./check "$ID" quick 2>&1)"
+    OUT="$(cd /verif && timeout 1500 ./check "$ID" quick 2>&1)"
     CODE=$?
     FIRST="$(printf '%s\n' "$OUT" | grep -m1 '^VIOLATION' | cut -c1-260)"
     N="$(printf '%s\n' "$OUT" | grep -c '^VIOLATION')"
